@@ -274,6 +274,9 @@ func genOptCfg(r *rand.Rand, isCond bool) Cfg {
 		c.Mtx = true // the toggle form must not take the lock twice
 	}
 	if r.Intn(6) == 0 {
+		c.Vpf = 1 + r.Intn(2) // a validity policy (2 rejects the instance) has no say in what the options are
+	}
+	if r.Intn(6) == 0 {
 		c.Err = 7 // a recorded error must not stand in the way of any option or getter
 	}
 	return c
